@@ -84,6 +84,7 @@ def tlc(spec, cfg, scratch, workers=None, env=None, timeout=600, heap="6g",
     if dfs_queue:
         jopts.append("-Dtlc2.tool.queue.IStateQueue=StateDeque")
     jopts.append("-DTLA-Library=" + os.path.join(SPECS, "lib"))
+    jopts.append("-Djava.io.tmpdir=" + md)          # TLC unpacks library modules into a temp dir: keep it inside the scratch
     cmd = ["java"] + jopts + ["-cp", JAR, "tlc2.TLC", "-workers", str(workers),
            "-metadir", md, "-config", cfg, "-noGenerateSpecTE"]
     if not deadlock:
